@@ -532,6 +532,96 @@ func TestUDPWrap(t *testing.T) {
 
 func findingKey(problem string) string { return "" }
 
+// TestWSChurn: short-lived websocket connections that the server side ends (an over-limit request is
+// answered with an error frame and the connection closed) or that the client abandons while the server is
+// about to answer slow calls, while other connections are being opened and used. Every caller must
+// still get its own response; run from the race-detector build this also shows whether a connection's
+// buffers are still in use when the server hands them to the next connection.
+func TestWSChurn(t *testing.T) {
+	iterations := ev.N(800, 40000)
+	for _, kind := range []string{"wsfast", "ws"} {
+		canon := fmt.Sprintf("%s: 8 workers x %d short-lived connections, ended by the server (over-limit request) or by the client while slow calls are being answered", kind, iterations/8)
+		ev.S.Begin("ws-churn", canon)
+		s := newGatedService()
+		s.MaxRequestLength = 1000
+		srv, err := tp.Start(kind, s)
+		if err != nil {
+			t.Fatal(err)
+		}
+		var problem atomic.Value
+		var wg sync.WaitGroup
+		var made int64
+		big := strings.Repeat("x", 3000)
+		for w := 0; w < 8; w++ {
+			wg.Add(1)
+			go func(w int) {
+				defer wg.Done()
+				for i := 0; i < iterations/8 && problem.Load() == nil; i++ {
+					client := srv.Client(5 * time.Second)
+					px := &proxy{}
+					client.UseService(px)
+					exhausted := false
+					for k := 0; k < 3; k++ {
+						tag := fmt.Sprintf("w%d-%d-%d", w, i, k)
+						got, err := px.Quick(tag)
+						if err != nil && tp.ResourceError(err) {
+							time.Sleep(200 * time.Millisecond)
+							exhausted = true
+							break
+						}
+						if err != nil || got != "q:"+tag {
+							problem.Store(fmt.Sprintf("worker %d connection %d: quick(%q) returned %q, %v", w, i, tag, got, err))
+							return
+						}
+					}
+					if exhausted {
+						client.Abort()
+						continue
+					}
+					switch i % 3 {
+					case 0:
+						// the server ends the connection: over-limit request
+						if _, err := px.Quick(big); err == nil {
+							problem.Store(fmt.Sprintf("worker %d connection %d: the over-limit call returned without an error", w, i))
+							return
+						}
+						client.Abort()
+					default:
+						// the client goes away while the server is about to answer two slow calls
+						t1, t2 := fmt.Sprintf("g%d-%d-a", w, i), fmt.Sprintf("g%d-%d-b", w, i)
+						go px.Gated(t1)
+						go px.Gated(t2)
+						time.Sleep(time.Duration(1+i%4) * time.Millisecond)
+						if i%3 == 1 {
+							client.Abort()
+							release(t1)
+							release(t2)
+						} else {
+							release(t1)
+							release(t2)
+							client.Abort()
+						}
+						forget([]string{t1, t2})
+					}
+					atomic.AddInt64(&made, 1)
+				}
+			}(w)
+		}
+		wg.Wait()
+		srv.Close()
+		ev.S.Bump("ws-churn", atomic.LoadInt64(&made))
+		ev.S.Case("ws-churn", canon, true, "ws-churn="+kind)
+		if p := problem.Load(); p != nil {
+			if os.Getenv("VERIF_TRIAGE") != "" {
+				fmt.Printf("TRIAGE %s | %s\n", p, canon)
+				continue
+			}
+			ev.S.Violation("ws-churn", "TestWSChurn", canon, p.(string), nil)
+			t.Fatalf("%s\n=> %s", canon, p)
+		}
+	}
+}
+
 // ---- reverse calls (service -> provider)
 
 type reverseRig struct {
